@@ -374,6 +374,15 @@ def main():
         tr.prior_fns = reg_fns
         tr.prior_consts = reg_consts
         tr.globals = glob_map
+        if m.get("heap"):
+            # heap mode (tools/tr_heap.py): pointers as values, object state as a generated structure
+            try:
+                import tr_heap
+                tr.heap_mode = tr_heap.HeapMode(ast, m["heap"])
+                tr.heap_mode.setup(tr)
+            except Unsupported as e:
+                st["ok"] = False
+                st["errors"].append("heap mode, class %s: %s" % (m["heap"], e))
         if status.get("globals_error") and m.get("needs_globals"):
             st["ok"] = False
             st["errors"].append("file-scope constants: " + status["globals_error"])
